@@ -665,3 +665,11 @@ mod tests {
         assert!(store.addresses.contains_key(fourth_record.address()));
     }
 }
+
+#[cfg(litep2p_verif)]
+impl AddressRecord {
+    /// Address score (verification hook; `score()` is test-only).
+    pub fn verif_score(&self) -> i32 {
+        self.score
+    }
+}
